@@ -316,15 +316,22 @@ def _shapes_c04_4(tier):
     stream lengths (aes128): psk_dhe c=346 s=273, cert c=~300 s=~1250"""
     out = []
 
+    # windows over the list-length bytes of the pre_shared_key extension:
+    # ~2000 paths of a whole handshake each (every value re-frames the
+    # identities/binders lists) - thorough tier only
+    slow = {("psk_dhe", "c", 240), ("hrr", "c", 640)}
+
     def add(auth, d, lo, hi, w, stride=None):
         for a in range(lo, hi, stride or w):
+            if tier == "quick" and (auth, d, a) in slow:
+                continue
             out.append(dict(auth=auth, dir=d, lo=a, hi=min(a + w, hi)))
     if tier == "quick":
         add("psk_dhe", "s", 0, 288, 16)
-        add("psk_dhe", "c", 0, 352, 2, 8)
+        add("psk_dhe", "c", 0, 352, 2, 16)
         add("cert", "s", 0, 160, 16)
         add("hrr", "s", 0, 96, 16)
-        add("hrr", "c", 352, 704, 2, 16)
+        add("hrr", "c", 352, 704, 2, 32)
     else:
         add("hrr", "s", 0, 400, 8)
         add("hrr", "c", 0, 800, 2)
@@ -397,8 +404,7 @@ def check_views_agree(I, sc):
                 "sealed by an endpoint",
                 "TLS 1.3, psk_dhe_ke with an external PSK or RSA certificate "
                 "authentication, TLS_AES_128_GCM_SHA256, x25519, no tickets"],
-            patches=_pair_patches4, max_paths=8000, timeout=(900, 3000),
-            also=("C05",))
+            patches=_pair_patches4, max_paths=8000, timeout=(600, 3000))
 def c04_4(I, shape):
     """whatever single byte an on-path attacker rewrites in either direction
     of a TLS 1.3 handshake, the two endpoints never both complete with
@@ -596,9 +602,9 @@ def _shapes_c04_6(tier):
         for a in range(lo, hi, stride or w):
             out.append(dict(scenario=scn, dir=d, lo=a, hi=min(a + w, hi)))
     if tier == "quick":
-        add("tls12-ecdhe-gcm", "c", 0, 320, 2, 8)
-        add("tls12-ecdhe-gcm", "s", 0, 1280, 4, 32)
-        add("tls12-rsa-cbc", "c", 160, 480, 4, 32)
+        add("tls12-ecdhe-gcm", "c", 0, 320, 2, 16)
+        add("tls12-ecdhe-gcm", "s", 0, 1280, 4, 64)
+        add("tls12-rsa-cbc", "c", 160, 480, 4, 64)
     else:
         add("tls12-ecdhe-gcm", "c", 0, 320, 2)
         add("tls12-ecdhe-gcm", "s", 0, 1280, 8)
@@ -675,8 +681,7 @@ def byte_tamper(I, shape, sc_factory):
                 "length bytes excepted); assumptions as in C04.4 plus "
                 "signature unforgeability (a signature verifies only over "
                 "data the key holder signed)"],
-            patches=_pair12_patches4, max_paths=8000, timeout=(900, 3000),
-            also=("C05",))
+            patches=_pair12_patches4, max_paths=8000, timeout=(600, 3000))
 def c04_6(I, shape):
     """whatever single byte an on-path attacker rewrites in a TLS <= 1.2
     handshake, the endpoints never both complete with different views"""
@@ -706,7 +711,7 @@ def _mixed_settings():
 
 def _shapes_c04_7(tier):
     out = []
-    w, stride = (2, 8) if tier == "quick" else (2, 2)
+    w, stride = (2, 16) if tier == "quick" else (2, 2)
     for a in range(0, 400, stride):
         out.append(dict(dir="c", lo=a, hi=a + w))
     for a in range(0, 176, 16 if tier == "quick" else 8):
@@ -727,7 +732,7 @@ def _shapes_c04_7(tier):
                 "AES-128-CBC-SHA, ECDHE_RSA and RSA); one byte of either "
                 "hello flight rewritten to a symbolic different value; "
                 "assumptions as in C04.6"],
-            patches=_pair12_patches4, max_paths=8000, timeout=(900, 3000))
+            patches=_pair12_patches4, max_paths=8000, timeout=(600, 3000))
 def c04_7(I, shape):
     """two endpoints that both support TLS 1.3 never complete at a lower
     version (or with different views) because a hello byte was rewritten"""
@@ -739,3 +744,81 @@ def c04_7(I, shape):
                 "completed-at-the-highest-mutual-version",
                 detail=lambda: dict(client=sc.c.version, server=sc.s.version))
         check_agree(I, sc)
+
+
+# ---------------------------------------------------------------------------
+# C04.8  every ClientHello of a falling-back client carries the SCSV
+# ---------------------------------------------------------------------------
+from models.hello import (hello_proxies, hello_stubs, HELLO_ASSUMES,
+                          client_conn, run_client_hello)
+from tlslite.session import Session, Ticket
+from tlslite.handshakesettings import HandshakeSettings
+from tlslite.constants import CipherSuite as _CS
+
+
+def _shapes_c04_8(tier):
+    out = []
+    for maxv in ((3, 1), (3, 2), (3, 3)):
+        for sess in ("none", "id", "ticket12", "not-resumable"):
+            out.append(dict(max=list(maxv), session=sess))
+    return out
+
+
+@obligation("C04.8", _shapes_c04_8,
+            functions=["tlslite.tlsconnection:TLSConnection."
+                       "_clientSendClientHello",
+                       "tlslite.tlsconnection:TLSConnection."
+                       "_handshakeClientAsyncHelper"],
+            assumes=HELLO_ASSUMES + [
+                "client settings: maxVersion per shape, sendFallbackSCSV "
+                "symbolic; offered session: none, one with a session id, one "
+                "with a TLS 1.2 ticket, one that is no longer resumable; "
+                "the ClientHello is read from the wire"],
+            patches=lambda s: (hello_proxies(), hello_stubs()),
+            max_paths=400)
+def c04_8(I, shape):
+    """a client told to signal a fallback puts TLS_FALLBACK_SCSV into the
+    ClientHello it sends whether or not it offers a session, and never
+    otherwise; the renegotiation SCSV is always there"""
+    st = HandshakeSettings()
+    st.maxVersion = tuple(shape["max"])
+    st.minVersion = (3, 1)
+    flag = I.pick([False, True], "sendFallbackSCSV")
+    st.sendFallbackSCSV = flag
+    sess = None
+    if shape["session"] != "none":
+        sess = Session()
+        sess.resumable = shape["session"] != "not-resumable"
+        sess.cipherSuite = _CS.TLS_RSA_WITH_AES_128_CBC_SHA
+        sess.masterSecret = bytearray(48)
+        sess.srpUsername = None
+        sess.serverName = None
+        sess.sessionID = bytearray(b"S" * 32) \
+            if shape["session"] != "ticket12" else bytearray(0)
+        if shape["session"] == "ticket12":
+            sess.tls_1_0_tickets = [Ticket(bytearray(b"T" * 40), 3600,
+                                           bytearray(48),
+                                           _CS.TLS_RSA_WITH_AES_128_CBC_SHA)]
+    conn = client_conn()
+    seen = {}
+
+    def wire(ch):
+        seen["ch"] = ch
+        return []           # EOF: the obligation ends with the hello
+    from tlslite.errors import TLSAbruptCloseError as _Abrupt
+    try:
+        out = run_client_hello(conn, st, wire, session=sess,
+                               cert_params=(None, None))
+    except (AssertionError, _Abrupt):
+        out = None
+    ch = seen.get("ch")
+    I.check(ch is not None, "client-hello-was-sent")
+    if ch is None:
+        return
+    suites = [int(x) for x in ch.cipher_suites]
+    I.check((_CS.TLS_FALLBACK_SCSV in suites) == flag,
+            "fallback-scsv-present-iff-requested",
+            detail=lambda: dict(session=shape["session"], flag=flag))
+    I.check(_CS.TLS_EMPTY_RENEGOTIATION_INFO_SCSV in suites or
+            ch.getExtension(0xff01) is not None,
+            "renegotiation-indication-present")
